@@ -339,7 +339,7 @@ def run_generic(pid, oracle, tier, seed, exhaustive_depth=None):
                 lines.append(lines[i])
                 hi.append(a)
                 hm.append(hm[i])
-        bw_viol, bw_n = binary_worlds(sc, vlib.rng_for(seed, pid + "-bw"), tier) if pid == "C11" else ([], 0)
+        bw_viol, bw_n = binary_worlds(sc, vlib.rng_for(seed, pid + "-bw"), tier)       # (both properties: the worlds hold three-way-merge clauses too)
         ev_, en_ = error_run_worlds(sc, vlib.rng_for(seed, pid + "-err"), tier)
         bw_viol += ev_; bw_n += en_
     hdiff, viol, kf_hits = [], [], {}
